@@ -231,6 +231,12 @@ def singles():
     out["filter-or-unbound"] = (A + [["filter", ["||", ["=", V("o"), C(0)], ["=", V("nope"), C(0)]]]], 1)
     out["filter-and-unbound"] = (A + [["filter", ["&&", ["=", V("o"), C(0)], ["=", V("nope"), C(0)]]]], 1)
     out["filter-not-unbound"] = (A + [["filter", ["!", ["=", V("nope"), C(0)]]]], 1)
+    out["filter-or-bare-unbound-true"] = (A + [["filter", ["||", V("nope"), ["=", V("s"), V("s")]]]], 0)
+    out["filter-and-bare-unbound-false"] = (A + [["filter", ["!", ["&&", V("nope"), ["!=", V("s"), V("s")]]]]], 0)
+    out["filter-not-bound-outer-nested"] = (A + [["group", [tp(V("x"), Q, V("y")), ["filter", ["!", ["bound", "s"]]]]]], 0)
+    out["join-groups-dup-right"] = ([["group", A], ["group", [["union", [tp(V("o"), Q, V("z"))], [tp(V("o"), Q, V("z"))]]]]], 0)
+    out["join-groups-dup-left"] = ([["group", [["union", A, A]]], ["group", [tp(V("o"), Q, V("z"))]]], 0)
+    out["minus-dup-left"] = ([["union", A, A], ["minus", [tp(V("o"), Q, V("z"))]]], 0)
     out["filter-iri-ebv"] = (A + [["filter", V("o")]], 0)
     out["filter-sameterm"] = (A + [["filter", ["sameTerm", V("s"), V("o")]]], 0)
     out["filter-first"] = ([["filter", ["=", V("o"), C(0)]]] + A, 1)
@@ -428,8 +434,8 @@ def scope_issues(group):
                              also occurs outside it (the outer binding captures the hidden variable)
       nested-minus           a MINUS inside a pushed context (both sides then carry the pushed bindings, which
                              changes compatibility and domain-disjointness)
-      nested-outer-filter    a FILTER (NOT) EXISTS inside a pushed context whose pattern mentions a variable that
-                             is not in scope in that group but occurs outside it
+      nested-outer-filter    a FILTER inside a pushed context with (NOT) EXISTS whose pattern mentions, or bound() of, a
+                             variable that is not in scope in that group but occurs outside it
     """
     issues = set()
     every = set()
@@ -453,8 +459,10 @@ def scope_issues(group):
         return acc
 
     def has_exists_var(e, names):
-        """does expression e contain an EXISTS/NOT EXISTS whose pattern mentions one of names"""
+        """does expression e contain an EXISTS/NOT EXISTS whose pattern mentions one of names, or bound() of one of names"""
         if isinstance(e, list):
+            if e and e[0] == "bound" and len(e) == 2 and e[1] in names:
+                return True
             if e and e[0] in ("exists", "notexists"):
                 acc = set()
                 _all_vars(e[1], acc)
